@@ -55,6 +55,7 @@ type explorer struct {
 	kind   string // parser | tokenizer | validator
 	workers int
 	firstPop, lastCand int
+	noRef bool // explore the machine alone (no reference): reachability of panics, missing arms, no-progress, stale reads
 }
 
 func byteDesc(b int) string {
@@ -255,8 +256,8 @@ func (ex *explorer) advanceY(start RCfg, evs []string, items []ConsItem) ([]yset
 }
 
 // Explore runs the product to a fixpoint and returns the disagreements.
-func Explore(m *Machine, starts []*State, multi bool, stats *ExploreStats, workers int) (map[string]Disagreement, []string) {
-	ex := &explorer{workers: workers, m: m, multi: multi, dis: map[string]Disagreement{}, undec: map[string]bool{}, stats: stats}
+func Explore(m *Machine, starts []*State, multi bool, stats *ExploreStats, workers int, noRef bool) (map[string]Disagreement, []string) {
+	ex := &explorer{noRef: noRef, workers: workers, m: m, multi: multi, dis: map[string]Disagreement{}, undec: map[string]bool{}, stats: stats}
 	switch {
 	case m.in.handler != nil:
 		ex.kind = "tokenizer"
@@ -429,6 +430,9 @@ func (ex *explorer) process(in *Interp, p *pstate) (res procResult) {
 	res.arms++
 	for _, o := range m.EOF(in, p.x) {
 		ex.common(o, p, mode, -1, &res)
+		if ex.noRef {
+			continue
+		}
 		switch o.Kind {
 		case "error":
 			if yAcc {
@@ -458,6 +462,36 @@ func (ex *explorer) process(in *Interp, p *pstate) (res procResult) {
 				continue
 			}
 			inb := string(rune(b))
+			if ex.noRef {
+				switch o.Kind {
+				case "no-progress":
+					report(Disagreement{Kind: "no-progress", Mode: mode, Byte: byteDesc(b), Detail: "the byte is re-dispatched without ever being consumed",
+						Witness: p.witness() + inb, XState: m.StateString(p.x), YState: "-"})
+				case "next":
+					nx := o.Next.clone()
+					for _, pu := range o.Pushes {
+						if st, ok := nx.stacks[pu.Field]; ok && !st.Empty {
+							m.noteBelow(pu.Field, st)
+						}
+					}
+					if len(o.Pops) > 0 {
+						res.popped = true
+					}
+					w := inb
+					for _, it := range o.Items {
+						for bb := 0; bb < 256; bb++ {
+							if it.Set[bb] {
+								if it.Rep != '*' {
+									w += string(rune(bb))
+								}
+								break
+							}
+						}
+					}
+					push(&pstate{x: nx, y: p.y, parent: p, input: w, depth: p.depth + 1})
+				}
+				continue
+			}
 			switch o.Kind {
 			case "error":
 				if !ys.Dead {
